@@ -484,4 +484,7 @@ def finalize(agg):
               'oracle:logged-value-frozen', 'oracle:caller-u0-unchanged', 'oracle:numpy-function-type', 'oracle:logged-value-survives-next-run'):
         if c.get(k, 0) == 0:
             out.append(f'monitor {k} never evaluated')
+    for k, why in (('noncontiguous_component_views', 'no component of a non-contiguous view was exercised'), ('particle_copies_checked', 'no particle copy was checked over all its arrays')):
+        if c.get(k, 0) == 0:
+            out.append(why)
     return out
